@@ -1106,6 +1106,11 @@ class SVG:
         for el in el_to_rm:
             el.getparent().remove(el)
 
+        # declarations of foreign namespaces on inner elements go with what used them
+        for child in self.svg_root:
+            if isinstance(child.tag, str):
+                etree.cleanup_namespaces(child, keep_ns_prefixes=["xlink"])
+
         # Make svg default; destroy anything unexpected
         good_nsmap = {
             None: svgns(),
